@@ -55,7 +55,7 @@ TVisit == /\ cse <= N /\ pos >= 1 /\ pos <= Len(Case.ev)
                         cnt' = [cnt EXCEPT !.events = @ + 1, !.visit = @ + 1,
                                            !.drift_below_opaque = @ + (IF r.ok THEN 0 ELSE 1),
                                            !.visit_sim = @ + (IF r.ok /\ r.n.t = "sim" THEN 1 ELSE 0),
-                                           !.drift_simplified_value = @ + (IF r.ok /\ r.n.t = "sim" /\ ~Same(r.n, e.val) THEN 1 ELSE 0),
+                                           !.drift_simplified_value = @ + (IF r.ok /\ ~Same(r.n, e.val) THEN 1 ELSE 0),
                                            !.visit_gen = @ + (IF r.ok /\ r.n.g = 1 THEN 1 ELSE 0),
                                            !.visit_leaf = @ + (IF r.ok /\ ~IsCont(r.n) THEN 1 ELSE 0),
                                            !.visit_container = @ + (IF r.ok /\ IsCont(r.n) /\ Kids(r.n) # <<>> THEN 1 ELSE 0),
